@@ -74,6 +74,7 @@ func Load(dir string, extraEnv []string, overlay map[string][]byte) (*World, err
 	prog.Build()
 	w := &World{Dir: dir, Env: extraEnv, Pkgs: pkgs, Prog: prog, Fset: prog.Fset, byPath: map[string]*packages.Package{}}
 	packages.Visit(pkgs, nil, func(p *packages.Package) { w.byPath[p.PkgPath] = p })
+	applyParamAliases(w)
 	return w, nil
 }
 
